@@ -1296,7 +1296,13 @@ namespace bloch::compiler {
                     TypeInfo pt = typeFromAst(p->type.get());
                     if (!f.type.className.empty()) {
                         // the whole type, type arguments included (Box<string> is not Box<int>)
-                        if (!typeEquals(pt, f.type)) {
+                        // (the class's own type parameters are not in scope here: a 'T' parameter
+                        // and a 'T' field agree by name)
+                        bool sameType = pt.className == f.type.className &&
+                                        pt.typeArgs.size() == f.type.typeArgs.size();
+                        for (size_t a = 0; sameType && a < pt.typeArgs.size(); ++a)
+                            sameType = typeLabel(pt.typeArgs[a]) == typeLabel(f.type.typeArgs[a]);
+                        if (!sameType) {
                             throw BlochError(ErrorCategory::Semantic, p->line, p->column,
                                              "default constructor parameter '" + p->name +
                                                  "' must match field type '" + f.type.className +
